@@ -2,3 +2,4 @@ pub mod resp;
 pub mod deflate;
 pub mod req;
 pub mod uri;
+pub mod multipart;
